@@ -136,21 +136,34 @@ def read_actual(act, vals, types, partial=None):
         ty = [act["view"], width(ty)]
     op = act.get("op")
     if op:
-        if op[0] == "addc":
-            if v is not None:
-                v = (_num(ty[0], ty[1], v) + op[1]) & _mask(ty[1])
-            return ty, v
-        ty2, v2 = read_actual(op[1], vals, types, partial)
-        if op[0] in ("lt", "eq"):
-            if v is None or v2 is None:
-                return ["bit"], None
-            a, b = _num(ty[0], width(ty), v), _num(ty2[0], width(ty2), v2)
-            return ["bit"], int(a < b if op[0] == "lt" else a == b)
-        assert ty == ty2, (ty, ty2)
-        if v is None or v2 is None:
-            return ty, None
-        return ty, {"xor": v ^ v2, "and": v & v2, "or": v | v2}[op[0]]
+        ty, v = _apply_op(op, ty, v, vals, types, partial)
+        psl = act.get("psl")
+        if psl is not None:
+            if len(psl) == 1:
+                ty, v = ["bit"], None if v is None else (v >> psl[0]) & 1
+            else:
+                w = psl[0] - psl[1] + 1
+                ty, v = ["bv", w], None if v is None else (v >> psl[1]) & _mask(w)
+        if act.get("pview"):
+            ty = [act["pview"], width(ty)]
     return ty, v
+
+
+def _apply_op(op, ty, v, vals, types, partial):
+    if op[0] == "addc":
+        if v is not None:
+            v = (_num(ty[0], ty[1], v) + op[1]) & _mask(ty[1])
+        return ty, v
+    ty2, v2 = read_actual(op[1], vals, types, partial)
+    if op[0] in ("lt", "eq"):
+        if v is None or v2 is None:
+            return ["bit"], None
+        a, b = _num(ty[0], width(ty), v), _num(ty2[0], width(ty2), v2)
+        return ["bit"], int(a < b if op[0] == "lt" else a == b)
+    assert ty == ty2, (ty, ty2)
+    if v is None or v2 is None:
+        return ty, None
+    return ty, {"xor": v ^ v2, "and": v & v2, "or": v | v2}[op[0]]
 
 
 class _Partial:
@@ -222,6 +235,22 @@ class Ref:
             types[s["name"]] = s["ty"]
         vals = dict(ins)
         partial = {}
+        # parent-owned registers: power-up value = default; `if en: r <<= src` on the clock, default on reset
+        for r in t.get("regs") or []:
+            dflt = next(s["default"] for s in t["signals"] if s["name"] == r["name"])
+            key = path + ("reg", r["name"])
+            cur = self.state.get(key, {"v": dflt})["v"]
+            vals[r["name"]] = cur
+            _, src = read_actual(r["src"], vals, types)
+            en = 1 if r["en"] is None else read_actual(r["en"], vals, types)[1]
+            rst = vals.get("rst") if r["rst"] else 0
+            if rst is None or (rst == 0 and en is None):
+                nxt = None
+            elif rst:
+                nxt = dflt
+            else:
+                nxt = src if en else cur
+            self._next[key] = {"v": nxt}
         for k, inst in enumerate(t["insts"]):
             child = self.T[inst["t"]]
             cin = {}
